@@ -88,12 +88,12 @@ def parseDef (defs : List (Ref × Blob)) (ws : List String) : Option (Ref × Blo
   | [id, "pn", signer, nonce, size] =>
     let id ← nat? id; let signer ← nat? signer; let _ ← nat? nonce; let size ← nat? size
     if id == 0 || !kindIs defs signer isKey then none else some (id, ⟨.pn signer, size, []⟩)
-  | [id, "claim", signer, pn, ct, attr, val, date, size] =>
+  | [id, "claim", signer, pn, ct, attr, val, date, size, drop] =>
     let id ← nat? id; let signer ← nat? signer; let pn ← nat? pn; let ct ← ctype? ct
-    let attr ← attr? attr; let val ← val? val; let date ← nat? date; let size ← nat? size
+    let attr ← attr? attr; let val ← val? val; let date ← nat? date; let size ← nat? size; let drop ← nat? drop
     let vok := match val with | .ref r => (defs.lookup r).isSome | _ => true
     if id == 0 || !kindIs defs signer isKey || !kindIs defs pn isPn || !vok then none
-    else some (id, ⟨.claim signer pn ct attr val date, size, []⟩)
+    else some (id, ⟨.claim signer pn ct attr val date drop, size, []⟩)
   | [id, "del", signer, target, date, size] =>
     let id ← nat? id; let signer ← nat? signer; let target ← nat? target; let date ← nat? date; let size ← nat? size
     if id == 0 || !kindIs defs signer isKey || (defs.lookup target).isNone then none
@@ -253,6 +253,16 @@ def step (st : St) (ws : List String) : St × String :=
       let f := fuelOf st
       let s := State.reindexAll (worldOf st.defs) Gen.c05SchemaVersion (f * f) st.s (sortBy (fun a b => decide (a ≤ b)) st.s.src)
       ({ st with s := s }, if s.needs.isEmpty then "ok" else "needed")
+    | ["frestart", p, k] =>
+      -- a start whose scan of one prefix fails: index.New / scanFromStorage propagate the iterator's Close
+      -- error (closeIterator), the start fails and the running index stays
+      match nat? k with
+      | none => (st, "bad-op")
+      | some _ =>
+        if p == "deleted" || p == "missing" then (st, "err")
+        else if p == "meta" || p == "claim" then
+          (if st.withC then (st, "err") else ({ st with s := st.s.restart Gen.c05SchemaVersion }, "ok"))
+        else (st, "bad-op")
     | ["reindexlive"] =>
       let f := fuelOf st
       let s := State.reindexLive (worldOf st.defs) Gen.c05SchemaVersion (f * f) st.s (sortBy (fun a b => decide (a ≤ b)) st.s.src)
